@@ -317,10 +317,6 @@ func c15Embedded(o *Out) {
 				ws, _ := stdjson.Marshal(w)
 				o.count("embedded_cases", 1)
 				if (gerr != nil) != (werr != nil) || (gerr == nil && !bytes.Equal(gs, ws)) {
-					if strings.HasPrefix(doc, `{"e":7`) || strings.HasPrefix(doc, `{"E":`) {
-						o.known("EmbeddedTaggedStructScalar", doc)
-						continue
-					}
 					if ti == 0 || ti == 1 || ti == 3 {
 						// a name present at two embedding depths: the case-insensitive
 						// match of a key that is not an exact name goes astray
